@@ -1144,6 +1144,12 @@ def list_syntax_layouts():
     # long lists: Morton codes and friends
     Ls.append(Layout(64, [Field("coord", T_uint(16), [(2 * k, 1) for k in range(16)], (2, 1, True), "rw")], tag="Morton code: 16 single-bit entries, interleaving array of two on u64"))
     Ls.append(Layout(128, [Field("m", T_uint(16), [(4 * k + 1, 1) for k in range(16)], None, "rw"), Field("n", T_uint(12), [(4 * k, 1) for k in range(12)], (2, 64, True), "rw")], tag="lists of 16 and 12 single-bit entries on u128"))
+    # more than 16 / 32 / 64 entries: full bit reversals and friends
+    Ls.append(Layout(32, [Field("rev", T_uint(32), [(31 - k, 1) for k in range(32)], None, "rw")], tag="bit reversal of u32 written as 32 single-bit entries"))
+    Ls.append(Layout(64, [Field("m", T_uint(17), [(3 * k + 1, 1) for k in range(17)], None, "rw"), Field("n", T_int(8), [(3 * k, 1) for k in range(8)], None, "rw")], tag="17 and 8 single-bit entries on u64"))
+    Ls.append(Layout(128, [Field("m", T_uint(33), [(127 - 3 * k, 1) for k in range(33)], None, "rw")], tag="33 descending single-bit entries on u128"))
+    Ls.append(Layout(128, [Field("m", T_uint(65), [(2 * k, 1) if k < 63 else (k + 63, 1) for k in range(65)], None, "rw")], tag="65 single-bit entries on u128"))
+    Ls.append(Layout(64, [Field("rev", T_uint(64), [(63 - k, 1) for k in range(64)], None, "rw")], tag="bit reversal of u64 written as 64 single-bit entries"))
     Ls.append(Layout(32, [Field("m", T_uint(10), [(31 - 3 * k, 1) for k in range(10)], None, "rw")], tag="descending list of 10 single bits with gaps on u32"))
     Ls.append(Layout(100, [Field("m", T_uint(27), [(3 * k, 3) if k % 2 else (3 * k + 40, 3) for k in range(9)], None, "rw")], tag="nine 3-bit entries on u100"))
     return Ls
